@@ -177,6 +177,12 @@ def run_check(prop, tier, replay=None):
     if b.lint:
         ob["ok"] = False
         ob["broken"] = "forbidden construct in the development: " + "; ".join(b.lint)
+    # facts about the evaluator core (harness/cmd/srcfacts/evalcore.go) are assigned to properties in one table
+    try:
+        _ev = json.load(open(os.path.join(os.path.dirname(__file__), "props", "evalsrc_facts.json"))).get(prop, [])
+    except (OSError, ValueError):
+        _ev = []
+    mod.SRC_FACTS = list(dict.fromkeys(list(getattr(mod, "SRC_FACTS", [])) + _ev))
     src_unrec = [k for k, v in b.src_status.items() if v != "ok" and k in getattr(mod, "SRC_FACTS", [])]
 
     # ---- known findings: replay witnesses ----------------------------------------------------------
